@@ -307,18 +307,24 @@ def r5_failed_result_pairing(chk, rule='C07.R5'):
                 n += 1
                 k = kx.id
                 ok, why = False, ''
-                for cand in sibling_stmts(st):
-                    s2 = cr.subscript_store(cand)
-                    if s2 and s2[0] == r.result and _key_is(s2[1], k):
-                        ok = True
-                    if s2 and s2[0] in r.work and _key_is(s2[1], k) and drains.get(s2[0]):
-                        ok = True
-                    pc = cr.pop_call(cand)
-                    if pc and pc[0] == r.result and _key_is(pc[1], k):
-                        ok = True
-                    for dd, kk in cr.del_targets(cand):
-                        if dd == r.result and _key_is(kk, k):
+                for cand0 in sibling_stmts(st):
+                    cands = [cand0]
+                    if isinstance(cand0, ast.If) and isinstance(cand0.test, ast.Compare) and \
+                            isinstance(cand0.test.ops[0], ast.In) and _key_is(cand0.test.left, k) and \
+                            _key_is(cand0.test.comparators[0], r.result):
+                        cands = list(cand0.body)   # `if k in RESULT: del RESULT[k]`
+                    for cand in cands:
+                        s2 = cr.subscript_store(cand)
+                        if s2 and s2[0] == r.result and _key_is(s2[1], k):
                             ok = True
+                        if s2 and s2[0] in r.work and _key_is(s2[1], k) and drains.get(s2[0]):
+                            ok = True
+                        pc = cr.pop_call(cand)
+                        if pc and pc[0] == r.result and _key_is(pc[1], k):
+                            ok = True
+                        for dd, kk in cr.del_targets(cand):
+                            if dd == r.result and _key_is(kk, k):
+                                ok = True
                 chk.ob(rule, 'compile/del %s[%s]#%d' % (r.failed, k, n), ok, where(r.mod, st),
                        'failure forgotten but the recorded failed status stays in RESULT (stale status)')
         pc = cr.pop_call(st)
@@ -567,8 +573,14 @@ def r7_foreign_exceptions(chk):
             fn = common.enclosing_function(node)
             qn = common.qualname(fn) if fn else '<module>'
             if node.exc is None:
-                # bare re-raise inside a handler: allowed only if the handler is for a package error
-                chk.ob('C07.R7a', '%s:%s/bare-raise' % (rel, qn), False, where(mod, node), 'bare re-raise')
+                # bare re-raise inside a handler passes on whatever was raised; it creates no new exception type
+                inside = False
+                a_ = getattr(node, '_parent', None)
+                while a_ is not None and not isinstance(a_, ast.FunctionDef):
+                    if isinstance(a_, ast.ExceptHandler):
+                        inside = True
+                    a_ = getattr(a_, '_parent', None)
+                chk.ob('C07.R7a', '%s:%s/bare-raise' % (rel, qn), inside, where(mod, node), 'bare raise outside a handler')
                 continue
             exc = node.exc.func if isinstance(node.exc, ast.Call) else node.exc
             anc = model.exc_ancestors(mod, exc)
